@@ -479,7 +479,73 @@ def shrink(case, clause):
   return cur
 
 
+def check_view(ctx, case):
+  """View._form_probabilistic_failures_for_pareto_frontier_optimization: in the epsilon-constraint phase of a two-metric
+  request the failure model of the constrained metric uses the epsilon value of the view's own scaled data (NaN = no user
+  threshold), built on that metric's column; with two user thresholds the other metric keeps its scaled user threshold."""
+  import gen_requests as G
+  from libsigopt.compute.misc.multimetric import EPSILON_CONSTRAINT, PROBABILISTIC_FAILURES
+  spec = case["spec"]
+  params = G.build_params(spec)
+  G.seed_library(spec)
+  view = G.view_class("gp_ei")(params)
+  info = view.multimetric_info
+  pofs = view._form_probabilistic_failures_for_pareto_frontier_optimization()
+  if info.method not in (EPSILON_CONSTRAINT, PROBABILISTIC_FAILURES):
+    ctx.count("view: other phase")
+    if pofs:
+      ctx.violation("C13 view: failure models built outside the epsilon-constraint phase", {"case": case, "method": str(info.method)})
+    return False
+  cm = int(info.params.constraint_metric)
+  eps = float(info.params.epsilon)
+  rows = numpy.asarray(view.points_sampled_for_af_values, dtype=float).reshape(-1, 2)
+  thr = [float(t) for t in view.optimized_metrics_thresholds]
+  both = not any(math.isnan(t) for t in thr)
+  ctx.count("view: epsilon phase, " + ("both user thresholds" if both else "no/one user threshold"))
+  if len(pofs) != (2 if both else 1):
+    ctx.violation(f"C13 view: {len(pofs)} failure models for an epsilon-constraint phase with thresholds {thr}", {"case": case})
+    return True
+  pc = pofs[cm] if both else pofs[0]
+  v = float(pc.threshold)
+  col = rows[:, cm]
+  lo, hi = float(col.min()), float(col.max())
+  tol = 16 * EPS * max(abs(lo), abs(hi)) + 1e-300
+  if not (lo - tol <= v <= hi + tol):
+    ctx.violation("C13 view: epsilon-constraint threshold leaves the range of the constrained metric",
+                  {"case": case, "value": v, "column_min": lo, "column_max": hi})
+    return True
+  got = numpy.asarray(pc.predictor.points_sampled_value, dtype=float)
+  if got.shape != col.shape or not numpy.array_equal(got, col):
+    ctx.violation(f"C13 view: the failure model of metric {cm} is not built on that metric's scaled values", {"case": case, "metric": cm})
+    return True
+  if both:
+    po = pofs[1 - cm]
+    if float(po.threshold) != thr[1 - cm] or not numpy.array_equal(numpy.asarray(po.predictor.points_sampled_value, dtype=float), rows[:, 1 - cm]):
+      ctx.violation(f"C13 view: the other metric's failure model does not use its scaled user threshold / its own values",
+                    {"case": case, "metric": 1 - cm, "threshold": float(po.threshold), "expected": thr[1 - cm]})
+      return True
+  if ctx.driver is None:
+    return True
+  tj = [("nan" if math.isnan(t) else fr(t)) for t in thr]
+  r = ctx.driver.call({"op": "eps", "rows": frm(rows.tolist()), "eps": fr(eps), "cm": cm, "t0": tj[0], "t1": tj[1]})
+  if "error" in r:
+    ctx.disagree("driver error " + r["error"], case)
+    return True
+  mv = unfr(r["value"])
+  if abs(Fraction(v) - mv) <= Fraction(tol):
+    return True
+  if r["branch"] != "bounded" and near_any(v, unfrl(r["legal"]), Fraction(tol)):
+    ctx.count("eps: implementation picked another of several tied optima than the model")
+    return True
+  ctx.disagree(f"view epsilon threshold: model {float(mv)} ({r['branch']}) impl {v}", case)
+  return True
+
+
 def check_case(ctx, case):
+  if case.get("kind") == "view":
+    nt = check_view(ctx, case)
+    ctx.case(key=case, nontrivial=nt)
+    return
   if "kind" not in case and "disagreements" in case:
     # replay of a broken-correspondence report: re-run every recorded disagreeing input
     for d in case["disagreements"]:
@@ -571,5 +637,13 @@ def run(ctx, scale):
     check_case(ctx, gen_case(ctx.rng, ctx.tier, scale))
     if len(ctx.violations) >= 5:
       break
+  # the use of the epsilon value when the view builds its failure models (two-metric requests late in the budget)
+  import gen_requests as G
+  for _ in range((120 if ctx.tier == "quick" else 1500) * scale):
+    if len(ctx.violations) >= 5:
+      break
+    spec = G.gen_request(ctx.rng, "gp_ei", layout="two", tasks=0, pending=0, n=ctx.rng.choice([4, 7, 12, 20, 30]),
+                         budget_frac=ctx.rng.choice([0.3, 0.5, 0.6, 0.7, 0.8, 0.9, 0.95, 1.0]))
+    check_case(ctx, {"kind": "view", "spec": spec})
   if ctx.tier != "quick" and scale == 1 and len(ctx.violations) < 5:
     grid(ctx)
